@@ -46,13 +46,26 @@ func (tx *Tx) check(cfg checkConfig, ch chan error) {
 
 	// Check if any pages are double freed.
 	freed := make(map[common.Pgid]bool)
+	duplicated := make(map[common.Pgid]bool)
 	all := make([]common.Pgid, tx.db.freelist.Count())
 	tx.db.freelist.Copyall(all)
 	for _, id := range all {
 		if freed[id] {
 			ch <- fmt.Errorf("page %d: already freed", id)
+			duplicated[id] = true
 		}
 		freed[id] = true
+	}
+	// The freelist backend may have merged duplicated ids while loading the
+	// list, so check the persisted freelist page for duplicates as well.
+	if tx.meta.Freelist() != common.PgidNoFreelist {
+		listed := make(map[common.Pgid]int)
+		for _, id := range tx.page(tx.meta.Freelist()).FreelistPageIds() {
+			listed[id]++
+			if listed[id] == 2 && !duplicated[id] {
+				ch <- fmt.Errorf("page %d: already freed", id)
+			}
+		}
 	}
 
 	// Track every reachable page.
